@@ -26,6 +26,8 @@ pub enum B {
     /// drop this client's strong handle to subscriber s
     DropSub(u8),
     StopSub(u8),
+    /// restart subscriber s (it keeps its identity, so its subscription stays)
+    RestartSub(u8),
 }
 
 struct S {
@@ -93,6 +95,14 @@ async fn run_b(c: u8, mut subs: Vec<Option<Addr<P>>>, ops: Vec<B>) {
                     Some(a) => ru(a.stop()),
                     None => Res::None,
                 },
+                B::RestartSub(s) => match subs[s as usize].as_mut() {
+                    Some(a) => {
+                        let r = a.restart();
+                        let _ = a.ping().await;
+                        ru(r)
+                    }
+                    None => Res::None,
+                },
             }
         };
         let r = std::panic::AssertUnwindSafe(fut).catch_unwind().await.unwrap_or(Res::Panicked);
@@ -123,7 +133,7 @@ impl Scene for S {
             let mut mine: Vec<Option<Addr<P>>> = vec![None; self.nsubs as usize];
             for op in prog {
                 let s = match op {
-                    B::Sub(s, _) | B::SubCtx(s, _) | B::Unsub(s, _) | B::PubCtx(s, _, _) | B::DropSub(s) | B::StopSub(s) => Some(*s),
+                    B::Sub(s, _) | B::SubCtx(s, _) | B::Unsub(s, _) | B::PubCtx(s, _, _) | B::DropSub(s) | B::StopSub(s) | B::RestartSub(s) => Some(*s),
                     _ => None,
                 };
                 if let Some(s) = s {
@@ -139,7 +149,7 @@ impl Scene for S {
             .iter_mut()
             .enumerate()
             .map(|(s, a)| {
-                let mentioned = self.programs.iter().flatten().any(|op| matches!(op, B::Sub(x, _) | B::SubCtx(x, _) | B::Unsub(x, _) | B::PubCtx(x, _, _) | B::DropSub(x) | B::StopSub(x) if *x as usize == s));
+                let mentioned = self.programs.iter().flatten().any(|op| matches!(op, B::Sub(x, _) | B::SubCtx(x, _) | B::Unsub(x, _) | B::PubCtx(x, _, _) | B::DropSub(x) | B::StopSub(x) | B::RestartSub(x) if *x as usize == s));
                 if mentioned { None } else { a.take() }
             })
             .collect();
@@ -298,6 +308,8 @@ fn cases(tier: Tier) -> Vec<Case> {
             push(&mut v, n, vec![vec![p, sub, B::Pub(1, 42)]], None);
             push(&mut v, n, vec![vec![sub, B::DropSub(0), p]], None);
             push(&mut v, n, vec![vec![sub, B::StopSub(0), p, B::Pub(1, 42)]], None);
+            push(&mut v, n, vec![vec![sub, B::RestartSub(0), p, B::Pub(1, 42)]], None);
+            push(&mut v, n, vec![vec![sub, p, B::RestartSub(0), sub, B::Pub(1, 42)]], None);
             // other topic
             push(&mut v, n, vec![vec![sub, B::Pub(2, 43), p]], None);
             push(&mut v, n, vec![vec![B::Sub(0, 2), p]], None);
